@@ -35,8 +35,8 @@ ASSUMPTIONS = ["one Eups instance per command; selectVRO is called once per inst
 NATIVE = "Linux"
 FLAVS = ["Linux", "generic"]
 VERS = ["1.0", "1.00", "1.2", "1.10", "2.0", "10.1", "2.0.1"]
-TAGS = ["current", "stable", "beta"]
-GLOBAL_TAGS = ["current", "stable", "beta"]
+TAGS = ["current", "stable", "beta", "t"]          # `t`: a tag whose name is a substring of "path" (D33)
+GLOBAL_TAGS = ["current", "stable", "beta", "t"]
 NAMES = ["p", "q"]
 PREV_PREFERRED = ["version", "versionExpr", "current", "stable", "latest"]
 DEFAULT_DICT = [["default", "type:exact commandLine version versionExpr current".split()]]
@@ -81,7 +81,7 @@ def gen_world(rng, names=None):
             for t in TAGS:
                 for f in FLAVS:
                     mine = [d[1] for d in decls if d[0] == nm and d[2] == f]
-                    r = rng.random()
+                    r = rng.random() * (1.0 if t != "t" else 2.0)
                     if r < 0.45 and mine:
                         tags.append([t, nm, f, rng.choice(mine)])
                     elif r < 0.55 and any(d[0] == nm for d in decls):
@@ -92,7 +92,7 @@ def gen_world(rng, names=None):
 
 
 def write_world(root, world):
-    stacks, _ = common.mkstacks(root, len(world["stacks"]), extra_tags=("beta",), default_product=True)
+    stacks, _ = common.mkstacks(root, len(world["stacks"]), extra_tags=("beta", "t"), default_product=True)
     old = time.time() - 5000
     for s, st in zip(stacks, world["stacks"]):
         byv = {}
@@ -236,8 +236,8 @@ DICTS = {
     "dbz": [["default", [["default", "version current".split()], ["stack0", "current version versionExpr".split()]]]],
     "early-version": [["default", "version commandLine current versionExpr stable".split()]],
 }
-A_TAGS = [[], ["beta"], ["stable", "beta"], ["current"], ["bogus"], ["beta", "beta"]]
-A_POST = [[], ["stable"], ["beta", "current"], ["beta"]]
+A_TAGS = [[], ["beta"], ["stable", "beta"], ["current"], ["bogus"], ["beta", "beta"], ["t"]]
+A_POST = [[], ["stable"], ["beta", "current"], ["beta"], ["t", "stable"]]
 
 
 def dict_to_hooks(d):
@@ -403,7 +403,8 @@ HAND_VROS = [["current", "version"], ["version", "current"], ["versionExpr", "st
              ["keep", "commandLine", "beta", "version", "versionExpr", "warn:1", "current"],
              ["beta", "path", "stable", "current", "latest"], ["commandLine", "versionExpr", "version", "latest"],
              ["type:build", "current", "bogus", "stable"], ["current", "current", "version", "stable"],
-             ["keep", "latest"], ["version", "versionExpr"], ["versionExpr"], ["stable", "version!", "beta"]]
+             ["keep", "latest"], ["version", "versionExpr"], ["versionExpr"], ["stable", "version!", "beta"],
+             ["t", "current"], ["commandLine", "t", "version", "versionExpr", "stable"], ["version", "t"]]
 EXPRS = [">= 1.2", "< 2.0", "== 1.0", ">= 1.0 || == 10.1", "> 10.1", "<= 1.10", ">= 1.2 && < 2.0.1", "<1.2", ">=2.0",
          "== 1.00 || == 2.0", "< 1.0"]
 MODES = ["files", "cache-rebuilt", "cache-accepted", "mixed-accepted"]
@@ -633,8 +634,8 @@ def gen_c(rng):
         already = {"version": rng.choice(VERS), "flavor": rng.choice(FLAVS), "stack": 0,
                    "reason": rng.choice([None, "commandLine", "current", "beta"])}
     return {"world": world, "name": "p", "version": version, "depth": depth, "keep": rng.random() < 0.3,
-            "tags": rng.choice([[], [], ["beta"], ["stable"], ["stable", "beta"]]),
-            "postTags": rng.choice([[], [], ["stable"], ["beta"]]), "already": already}
+            "tags": rng.choice([[], [], ["beta"], ["stable"], ["stable", "beta"], ["t"]]),
+            "postTags": rng.choice([[], [], ["stable"], ["beta"], ["t"]]), "already": already}
 
 
 def c_child(stacks, c):
@@ -880,6 +881,7 @@ def run(ctx):
 
 
 def replay(ctx, rp):
+    common.import_eups()      # before any scratch stack is set up: the first import cleans EUPS_* from the environment
     inp = rp["input"]
     sub = common.Ctx(ctx.pid, ctx.tier, ctx.seed, 600)
     sub.lean = ctx.lean
